@@ -466,6 +466,10 @@ var zBadModules = []ZModule{
 	{"example.com/m", "v2.0.0", "major-mismatch"},
 	{"example.com/m/v2", "v1.0.0", "major-mismatch"},
 	{"example.com/m/v2", "v3.0.0", "major-mismatch"},
+	{"example.com/m/v2", "v21.0.0", "major-mismatch"},
+	{"example.com/m/v2", "v20.3.1-pre", "major-mismatch"},
+	{"gopkg.in/yaml.v3", "v30.0.0", "major-mismatch"},
+	{"example.com/m/v21", "v2.0.0", "major-mismatch"},
 	{"example.com/m/v2", "v0.0.0-20191109021931-daa7c04131f5", "major-mismatch"},
 	{"gopkg.in/yaml.v2", "v1.0.0", "major-mismatch"},
 	{"gopkg.in/yaml.v2", "v3.0.0", "major-mismatch"},
@@ -478,6 +482,9 @@ var zBadModules = []ZModule{
 	{"gopkg.in/yaml.v02", "v2.0.0", "bad-gopkg"},
 	{"gopkg.in/yaml.v-unstable", "v1.0.0", "bad-gopkg"},
 	{"m", "v1.0.0", "bad-path"},
+	{"localhost/tools.d", "v1.0.0", "bad-path"},
+	{"cmd/go.mod", "v0.1.0", "bad-path"},
+	{"corp/team/lib.go/v2", "v2.0.0", "bad-path"},
 	{"Example.com/m", "v1.0.0", "bad-path"},
 	{"example.com/.m", "v1.0.0", "bad-path"},
 	{"example.com/m/", "v1.0.0", "bad-path"},
